@@ -82,17 +82,28 @@ Definition is_intercept (t : term) : bool := match t with TI _ => true | _ => fa
 Definition vnums (l : list num) := VList (map v_of_num l).
 Definition vostrs (l : list ostr) := VList (map v_of_ostr l).
 
+(* edge knots given by the user (SplineTerm(..., edge_knots=...), _edge_knots_given) *)
+Definition keep_given (k : option (bool * list num)) : option (bool * list num) :=
+  match k with Some (true, x) => Some (true, x) | _ => None end.
+Definition given_knots (k : option (bool * list num)) : bool := match k with Some (true, _) => true | _ => false end.
+(* SplineTerm.info (inherited by FactorTerm): the knots the user gave are part of the dictionary
+   ("fix: a spline term's info dropped edge knots given by the user") *)
+Definition knots_entry (k : option (bool * list num)) : list value :=
+  match k with Some (true, x) => [VList [VStr "edge_knots"; VList (map v_of_num x)]] | _ => [] end.
+
 Definition info_simple (x : simple) : value :=
   match x with
   | SL l => VList [kv "feature" (VInt (l_feat l)); kv "lam" (vnums (l_lam l)); kv "penalties" (vostrs (l_pen l));
                    kv "term_type" (VStr "linear_term"); kv "verbose" (VBool (l_verbose l))]
-  | SS s => VList [kv "basis" (VStr (s_basis s)); kv "by" (v_of_oz (s_by s)); kv "constraints" (vostrs (s_con s));
-                   kv "dtype" (VStr (s_dtype s)); kv "feature" (VInt (s_feat s)); kv "lam" (vnums (s_lam s));
-                   kv "n_splines" (VInt (s_n s)); kv "penalties" (vostrs (s_pen s)); kv "spline_order" (VInt (s_order s));
-                   kv "term_type" (VStr "spline_term"); kv "verbose" (VBool (s_verbose s))]
-                  (* edge_knots_ is dropped: trailing underscore *)
-  | SF s c => VList [kv "coding" (VStr c); kv "feature" (VInt (s_feat s)); kv "lam" (vnums (s_lam s));
-                     kv "penalties" (vostrs (s_pen s)); kv "term_type" (VStr "factor_term"); kv "verbose" (VBool (s_verbose s))]
+  | SS s => VList ([kv "basis" (VStr (s_basis s)); kv "by" (v_of_oz (s_by s)); kv "constraints" (vostrs (s_con s));
+                    kv "dtype" (VStr (s_dtype s))] ++ knots_entry (s_knots s) ++
+                   [kv "feature" (VInt (s_feat s)); kv "lam" (vnums (s_lam s));
+                    kv "n_splines" (VInt (s_n s)); kv "penalties" (vostrs (s_pen s)); kv "spline_order" (VInt (s_order s));
+                    kv "term_type" (VStr "spline_term"); kv "verbose" (VBool (s_verbose s))])
+                  (* edge_knots_ itself is dropped (trailing underscore); knots not given by the user are data, not settings *)
+  | SF s c => VList ([kv "coding" (VStr c)] ++ knots_entry (s_knots s) ++
+                     [kv "feature" (VInt (s_feat s)); kv "lam" (vnums (s_lam s));
+                      kv "penalties" (vostrs (s_pen s)); kv "term_type" (VStr "factor_term"); kv "verbose" (VBool (s_verbose s))])
   end.
 
 Definition info (t : term) : value :=
@@ -166,13 +177,14 @@ Definition build_simple (i : value) : option simple :=
     pen <- (v <- vlookup "penalties" kvs ;; vostr_list v) ;; vb <- (v <- vlookup "verbose" kvs ;; vbool v) ;;
     validate_simple (SL (mkL f lam pen vb "numerical" [None]))
   else if String.eqb ty "spline_term" then
-    if negb (List.length kvs =? 11)%nat then None else
+    kn <- (match vlookup "edge_knots" kvs with Some v => (k <- vnum_list v ;; Some (Some (true, k))) | None => Some None end) ;;
+    if negb (List.length kvs =? (match kn with Some _ => 12 | None => 11 end))%nat then None else
     f <- (v <- vlookup "feature" kvs ;; vint v) ;; lam <- (v <- vlookup "lam" kvs ;; vnum_list v) ;;
     pen <- (v <- vlookup "penalties" kvs ;; vostr_list v) ;; vb <- (v <- vlookup "verbose" kvs ;; vbool v) ;;
     con <- (v <- vlookup "constraints" kvs ;; vostr_list v) ;; n <- (v <- vlookup "n_splines" kvs ;; vint v) ;;
     o <- (v <- vlookup "spline_order" kvs ;; vint v) ;; ba <- (v <- vlookup "basis" kvs ;; vstr v) ;;
     dt <- (v <- vlookup "dtype" kvs ;; vstr v) ;; b <- (v <- vlookup "by" kvs ;; oz_of_v v) ;;
-    validate_simple (SS (mkS f n o lam pen con ba dt b None vb))      (* edge_knots=None *)
+    validate_simple (SS (mkS f n o lam pen con ba dt b kn vb))        (* edge_knots=None or the user's knots again *)
   else if String.eqb ty "factor_term" then
     if negb (List.length kvs =? 6)%nat then None else
     f <- (v <- vlookup "feature" kvs ;; vint v) ;; lam <- (v <- vlookup "lam" kvs ;; vnum_list v) ;;
@@ -211,8 +223,6 @@ Definition compile (dk : Z -> list num) (ncat : Z -> Z) (t : term) : term :=
    data: everything except `verbose`, except edge knots that were NOT given by the user and a factor term's n_splines (both
    are regenerated from the data by every compile), and for a linear term also except dtype / constraints: with one
    coefficient every constraint matrix is zero and the 'auto' penalty is l2 for both dtypes -- checked by the harness *)
-Definition keep_given (k : option (bool * list num)) : option (bool * list num) :=
-  match k with Some (true, x) => Some (true, x) | _ => None end.
 Definition behav_simple (x : simple) : simple :=
   match x with
   | SL l => SL (mkL (l_feat l) (l_lam l) (l_pen l) false "numerical" [None])
@@ -225,23 +235,20 @@ Definition behav (t : term) : term :=
   match t with TI _ => TI false | TS x => TS (behav_simple x) | TTe ms b _ => TTe (map behav_simple ms) b false end.
 
 (* guards of the info round trip *)
-Definition given_knots (k : option (bool * list num)) : bool := match k with Some (true, _) => true | _ => false end.
-(* no edge knots given by the user (knots from an earlier fit are fine: they are regenerated) *)
-Definition no_knots_simple (x : simple) : bool :=
-  match x with SL _ => true | SS s => negb (given_knots (s_knots s)) | SF s _ => negb (given_knots (s_knots s)) end.
 (* hidden attributes of a factor term at the values its constructor gives them (n_splines is overwritten by compile) *)
 Definition hidden_default_simple (x : simple) : bool :=
   match x with
   | SL _ => true | SS _ => true
   | SF s _ => Z.eqb (s_order s) 0 && String.eqb (s_basis s) "ps" && String.eqb (s_dtype s) "categorical" &&
               match s_by s with None => true | _ => false end &&
-              match s_con s with [None] => true | _ => false end
+              match s_con s with [None] => true | _ => false end &&
+              negb (given_knots (s_knots s))        (* the FactorTerm constructor takes no edge_knots: never given *)
   end.
 Definition roundtrip_guard (t : term) : bool :=
   match t with
   | TI _ => true
-  | TS x => no_knots_simple x && hidden_default_simple x
-  | TTe ms _ _ => forallb (fun x => no_knots_simple x && hidden_default_simple x) ms && (2 <=? List.length ms)%nat
+  | TS x => hidden_default_simple x
+  | TTe ms _ _ => forallb hidden_default_simple ms && (2 <=? List.length ms)%nat
   end.
 
 (* ------------------------------------------------------------------ TermList construction *)
